@@ -266,6 +266,7 @@ def run(cfg, w):
         k = w.real("k", default=1e-9)
         r1 = _run(kind, dims, tab, D)
         r2 = _run(kind, dims, tab, k * D)
+        w.set_scale(k * D)  # float runs: the scaled results are compared at their own magnitude
         for key in r1:
             a1, a2 = np.asarray(r1[key]), np.asarray(r2[key])
             for idx in np.ndindex(*a1.shape):
